@@ -189,6 +189,7 @@ package ast
 // reasoning, so the combined statement is assumed at call sites.
 //@   censures result == nil ==> forall(i, 0 <= i && i < len(nodes) && istype(*nodes[i], *SetFunctionNode) ==> as(*nodes[i], *SetFunctionNode).setFunction <= SetFunctionAnyOf)
 //@   censures forall(i, 0 <= i && i < len(nodes) && old(istype(*nodes[i], SymbolNode)) ==> istype(*nodes[i], SymbolNode))
+//@   censures result == nil ==> forall(i, 0 <= i && i < len(nodes) && istype(*nodes[i], *SetFunctionNode) ==> old(istype(*nodes[i], *SetFunctionNode)))
 //@   invariant 1: forall(i, 0 <= i && i < len(nodes) ==> nodes[i] != nil && *nodes[i] != nil)
 //@ func transformBools
 //@   props C10
@@ -207,6 +208,7 @@ package ast
 //@   ensures[result-or-error] result1 == nil ==> result0 != nil
 //@   ensures[symbol-stays-symbol] result1 == nil && istype(self, SymbolNode) ==> istype(result0, SymbolNode)
 //@   ensures[setfn-compares] result1 == nil && istype(result0, *SetFunctionNode) ==> as(result0, *SetFunctionNode).setFunction <= SetFunctionAnyOf
+//@   ensures[setfn-from-setfn] result1 == nil && istype(result0, *SetFunctionNode) ==> istype(self, *SetFunctionNode)
 //@ func (BoolTypeTransformable).TypeTransformBool
 //@   props C10
 //@   impl all
@@ -334,6 +336,9 @@ package ast
 //@   ensures result == (node.setFunction == SetFunctionAllOf || node.setFunction == SetFunctionAnyOf)
 // after the typing pass a set-function wrapper survives only for anyOf/allOf (count and isEmpty become their own nodes)
 //@ typeinv SetFunctionNode: 0 <= self.setFunction && self.setFunction <= 3
+//@ immutable H.ast.SetFunctionNode.setFunction
+// the right operand of a comparison is a literal (grammar: binaryLhs op literal), never a set function
+//@ typeinv BinaryExprNode: !istype(self.right, *SetFunctionNode)
 
 //@ func (*BetweenExprNode).getTypedExpr
 //@   props C10
@@ -358,6 +363,7 @@ package ast
 //@ func (*SortByNode).TypeTransform
 //@   props C10
 //@   nilrecv
+//@   waive boxnil a nil *SortByNode receiver is returned boxed as a Node; every caller discards that result
 //@   requires s != nil
 //@   modifies *
 //@ func (*SortFieldNode).TypeTransform
